@@ -660,6 +660,9 @@ impl<Context: ServerContext> ApiDescription<Context> {
         let endpoint_tags = self
             .router
             .endpoints(Some(version))
+            // Unpublished endpoints are omitted from the document entirely,
+            // including any tags that only they use.
+            .filter(|(_, _, endpoint)| endpoint.visible)
             .flat_map(|(_, _, endpoint)| {
                 endpoint
                     .tags
